@@ -209,6 +209,60 @@ def gen_directed(rng, which):
             roots = [a, a, "./" + a] if rng.chance(1, 2) else [inner, a + "/../" + inner, inner]
         if rng.chance(1, 3):
             cwd = a
+    elif which == "n7":
+        # a FILE or LINK handed to visit_path (input path, link target) and an --exclude pattern for the paths
+        # below it / for the link's own path: the directory filter looks at the parent, a link is judged
+        # through what it points to
+        shape = rng.below(4)
+        entries = [[a, "D", None], [a + "/" + f, "F", 2], [a + "/g", "F", 3], [d, "D", None],
+                   [d + "/l", "L", ["T", a + "/" + f, False]], [d + "/ld", "L", ["T", a, rng.chance(1, 2)]]]
+        o["_patkind"] = "exclude_children_of_file"
+        if shape == 0:
+            o["follow"] = rng.chance(1, 2)
+            o["excludes"] = ["TOPLIT:" + gesc(a + "/" + f) + "/**"]
+            roots = [a + "/" + f] if not o["follow"] or rng.chance(1, 2) else [d]
+        elif shape == 1:        # `group t/L -S --exclude t/L/**`, L -> file
+            o["follow"] = False
+            o["symlinks"] = True
+            o["excludes"] = ["TOPLIT:" + gesc(d + "/l") + "/**"]
+            roots = [d + "/l"]
+        elif shape == 2:        # -L, a link to a directory whose own path is matched by an exclude pattern
+            o["follow"] = True
+            o["excludes"] = ["TOPLIT:" + gesc(d + "/ld") + rng.choice(["", "/**"])]
+            roots = [d] if rng.chance(1, 2) else [d + "/ld"]
+        else:                   # -L -S, link to a file given as input path, exclude for the paths below the link
+            o["follow"] = True
+            o["symlinks"] = rng.chance(1, 2)
+            o["excludes"] = ["TOPLIT:" + gesc(d + "/l") + "/**"]
+            roots = [d + "/l"]
+        return {"top": "top", "entries": entries, "shm": None}, o, roots, ""
+    elif which == "link_file":
+        # -L and links whose (final) target is a file: the target must go through the same tests as any
+        # other visited path (it may be another link: a chain; it may be hidden; it may be ignored)
+        shape = rng.below(4)
+        o["follow"] = True
+        o["symlinks"] = False
+        if shape == 0:      # chain with the intermediate link outside the scanned input path
+            entries = [["in", "D", None], ["out", "D", None], ["out/real.txt", "F", 2],
+                       ["out/l2", "L", ["R", "real.txt", False]], ["in/l1", "L", ["T", "out/l2", rng.chance(1, 2)]],
+                       ["in/" + f, "F", 3]]
+            roots = ["in"]
+        elif shape == 1:    # chain inside the scanned tree, three links long
+            entries = [["in", "D", None], ["in/real.txt", "F", 2], ["in/l3", "L", ["R", "real.txt", False]],
+                       ["in/l2", "L", ["R", "l3", False]], ["in/l1", "L", ["R", "l2", False]]]
+            roots = ["in"]
+        elif shape == 2:    # link to a hidden file, no --hidden
+            entries = [["in", "D", None], ["out", "D", None], ["out/.secret", "F", 2], ["in/" + f, "F", 3],
+                       ["in/l", "L", ["T", "out/.secret", rng.chance(1, 2)]], ["in/.h2", "F", 2],
+                       ["in/k", "L", ["R", ".h2", False]]]
+            roots = ["in"] if rng.chance(1, 2) else [""]
+        else:               # link to a file that an ignore file on the way lists (inside its directory)
+            o["no_ignore"] = False
+            entries = [["in", "D", None], ["in/sub", "D", None], ["in/sub/x.log", "F", 2], ["in/sub/keep", "F", 3],
+                       ["in/" + rng.choice([".gitignore", ".fdignore"]), "I", [rng.choice(["x.log", "*.log"])]],
+                       ["in/l", "L", ["R", "sub/x.log", False]]]
+            roots = ["in"]
+        return {"top": "top", "entries": entries, "shm": None}, o, roots, ""
     elif which == "icase_upper":
         # --ignore-case with literal pattern prefixes over names with upper-case non-ASCII letters,
         # in a directory below the input path and in the working-directory prefix of a relative pattern
@@ -584,8 +638,10 @@ def gen_roots(rng, top, dirs_abs, files_abs, links_abs, shm_top):
 # the reference walk (documentation reading), on the real file system
 
 class Ref:
-    def __init__(self, case, sel_file, sel_dir, not_excl, prune, ign_anywhere):
-        self.o = case["opts"]
+    def __init__(self, case, sel_file, sel_dir, not_excl, prune, ign_anywhere, no_ignore=False):
+        self.o = dict(case["opts"])
+        if no_ignore:
+            self.o["no_ignore"] = True
         self.not_excl = not_excl
         self.case = case
         self.sel_file = sel_file
@@ -629,12 +685,15 @@ class Ref:
             raise RuntimeError("reference walk budget exhausted")
         if path in route:
             return
-        if via_path and self.prune and not self.sel_dir(path):
-            return
         try:
             lst = os.lstat(path)
         except OSError:
             return
+        if via_path and self.prune:
+            # visit_path: the directory filter applies to the parent of a regular file or link, to the path itself otherwise
+            leaf = st_mod.S_ISREG(lst.st_mode) or st_mod.S_ISLNK(lst.st_mode)
+            if not self.sel_dir(os.path.dirname(path) if leaf else path):
+                return
         name = os.path.basename(path)
         if not self.o["hidden"] and name.startswith(".") and level > 0:
             return                                      # hidden names are skipped below the input paths only
@@ -642,8 +701,9 @@ class Ref:
         isdir = st_mod.S_ISDIR(m)
         if self.ignored(stack, path, isdir):
             return
-        if self.in_excluded_tree(path):
-            return                                      # inside a directory (or a link) matched fully by --exclude
+        if self.in_excluded_tree(os.path.dirname(path) if st_mod.S_ISLNK(m) else path):
+            return                                      # inside a directory matched fully by --exclude (a link is judged
+                                                        # through what it points to; as a reported link through sel_file)
         route2 = route + [path]
         if st_mod.S_ISREG(m):
             self.report(path, route)
@@ -837,6 +897,10 @@ def classify_missing(case, p, sel_dir, refs):
         route = refs["doc_routes"][p]
         bad = [d for d in route if not sel_dir(d)]
         on_path = [d for d in bad if is_prefix_path(d, p)]
+        if on_path == [p] and o["excludes"]:
+            # matches_full_path(p) holds, so the include side of matches_dir(p) holds too (a20abe7): the exclude side
+            # rejected the visited file path p + "/" although no exclude pattern matches p
+            return {"kind": "exclude_children_glob_rejects_visited_file", "level": "walk"}
         if on_path:
             for d in on_path:
                 ds = d + "/"
@@ -922,6 +986,50 @@ def evaluate(ctx, cases, model, do_cli, fclones):
         nontrivial = len(c["eval"]) > 8 and (len(r1["walk"]) > 0)
         ctx.distinct((c["tree_tag"], json.dumps(o, sort_keys=True), c["cwd"], tuple(c["roots"])), nontrivial)
 
+        # 2a. the selector-level hypotheses of C09_exact / C09_exact_exclude on the real PathSelector:
+        #     excl d = an --exclude pattern matches d fully;  (1) matches_dir rejects a proper ancestor of an accepted
+        #     path only if that directory or one above it is excluded, (2) everything at or below an excluded path
+        #     is rejected by matches_dir, (3) an excluded path is not accepted by matches_full_path
+        def prefixes_of(q):
+            out, cur = [], q
+            while True:
+                out.append(cur)
+                if cur == "/":
+                    return out
+                cur = os.path.dirname(cur)
+        hyp_bad = None
+        for q in c["eval"]:
+            pre = prefixes_of(q)
+            excl_above = [d for d in pre if not not_excl(d)]
+            if excl_above and sel_dir(q):
+                hyp_bad = ("excluded_path_not_pruned", q, excl_above[0])
+            if sel_file(q) and not not_excl(q):
+                hyp_bad = ("excluded_path_accepted", q, q)
+            if sel_file(q) and c["kinds"][q] != "D" and not hyp_bad:
+                for d in pre[1:]:
+                    if not sel_dir(d) and not any(not not_excl(d2) for d2 in prefixes_of(d)):
+                        hyp_bad = ("ancestor_rejected", q, d)
+                        break
+            if hyp_bad:
+                break
+        ctx.bump("selector_hypotheses", "hold" if not hyp_bad else hyp_bad[0])
+        if hyp_bad:
+            what_, q_, d_ = hyp_bad
+            ksig = {"kind": "selector_hypothesis_failed", "which": what_, "pattern_kind": o["_patkind"]}
+            if what_ == "ancestor_rejected" and d_ == q_:
+                # the path itself, taken as a directory, is rejected although no exclude pattern matches it:
+                # an exclude pattern that matches only paths BELOW it (`P/**`, or with -i a differently cased twin)
+                ksig = {"kind": "exclude_children_glob_rejects_visited_file", "level": "selector"}
+            elif what_ == "ancestor_rejected":
+                ds = d_ + "/"
+                for e in o["excludes"]:
+                    if not o["regex"] and not any(ch in e for ch in "*?[{") and ds.startswith(e) and \
+                            len(e) < len(ds) and not e.endswith("/") and ds[len(e)] != "/":
+                        ksig = {"kind": "exclude_prefix_prunes_sibling"}
+            ctx.violation(ksig, "PathSelector (--path %s --exclude %s%s): %s: matches_full_path(%s) = %s, matches_dir(%s) = %s" % (
+                o["paths"], o["excludes"], " -i" if o["icase"] else "", what_, q_, sel_file(q_), d_, sel_dir(d_)),
+                dict(replay, path=q_, directory=d_), found_input=True)
+
         # 2b. the simple pattern kinds have an obvious documented meaning: check the real selector against it
         if o.get("_expect"):
             ex = o["_expect"]
@@ -962,9 +1070,22 @@ def evaluate(ctx, cases, model, do_cli, fclones):
 
         impl_set = set(r1["scan"])
         failing_input = False
+        root_paths = set()
+        for r in c["roots"]:
+            rp_ = r if r.startswith("/") else os.path.join(c["cwd"], r)
+            root_paths.add(os.path.normpath(rp_))
+            root_paths.add(os.path.join(os.path.realpath(os.path.dirname(rp_)), os.path.basename(rp_)))
         for p in sorted(impl_set - set(doc)):
             failing_input = True
-            ctx.violation({"kind": "extra_file"}, "file %s is reported but the options do not select it (%s)" % (p, replay["cli"]),
+            kind, why = "extra_file", "the options do not select it"
+            if os.path.islink(p) and not o["symlinks"]:
+                kind, why = "symlink_reported_without_S", "it is a symbolic link and --symbolic-links is not set (only link targets may be reported)"
+            elif not o["hidden"] and os.path.basename(p).startswith(".") and p not in root_paths and \
+                    not any(os.path.islink(r_) for r_ in root_paths):
+                kind, why = "hidden_file_reported_without_hidden", "its name is hidden, it is not an input path and --hidden is not set"
+            elif not o["no_ignore"] and p in Ref(c, sel_file, sel_dir, not_excl, False, False, no_ignore=True).run():
+                kind, why = "ignored_file_reported", "an ignore file in a directory above it (on the way from the input path) lists it and --no-ignore is not set"
+            ctx.violation({"kind": kind}, "file %s is reported but %s (%s)" % (p, why, replay["cli"]),
                           dict(replay, path=p), found_input=True)
         for p in sorted(set(doc) - impl_set):
             sig = classify_missing(c, p, sel_dir, refs)
@@ -1115,7 +1236,7 @@ def run(ctx):
                 which = ["n1_depth", "n1_roots", "n1_ignore", "n5", "n2"][(ti // 8) % 5]
                 extra = ["ov_depth", "ov_ignore", "ov_repeat", "cwd_meta"][(ti // 8) % 4]
                 for wi, which in enumerate((which, extra, "cwd_meta" if extra != "cwd_meta" else "ov_depth",
-                                            "icase_upper", "twins")):
+                                            "icase_upper", "twins", "link_file") + (("n7",) if (ti // 8) % 2 == 0 else ())):
                     dspec, dopts, droots, dcwd = gen_directed(rng, which)
                     dtree = prepare(ctx, dspec, "d%d_%d" % (ti, wi), rng, False)
                     dopts["paths"] = [gesc(dtree["top"] + "/" + x[4:-3]) + "/**" if x.startswith("TOP:") else x for x in dopts["paths"]]
